@@ -17,34 +17,51 @@ namespace Ru
 open SL.SyncEx
 
 /-- FULL statement (false of the model, see `C04_chain_invariant_counterexample`): every state reached by a
-    well-formed history whose ticks are aligned has a shaped chain. -/
+    well-formed history whose ticks are aligned — with no assumption on what the clock reads — has a shaped
+    chain. -/
 def C04_chain_invariant_full (env : Env) (cfg : Cfg) : Prop :=
   1 ≤ cfg.minFee → Function.Injective env.hash → 0 ≤ cfg.interval →
   ∀ ops : List Op, (∀ o ∈ ops, o.WF) → Along env cfg (TickAligned cfg) Node.empty ops →
     Shape cfg (Ru.run env cfg Node.empty ops).led.blocks
 
-/-- PARTIAL: the same, excluding ticks applied to a non-empty chain whose tip is dated 0 (`TipNonzero`;
-    `Validate` reads `lastTs = 0` as "no block yet" and then accepts any tick and mints the genesis amount). -/
+/-- Under an honest clock (no tick is dated 0) and an injective block hash, `lastTs = 0` — what `Validate`
+    and the pool read as "no block yet" — holds of the empty chain only, in every reachable state and
+    whatever the neighbours offer: produced blocks are dated at the tick, adopted blocks above a first
+    block passed `verifyBlock` (which refuses a block dated 0 since the fix: commit) or are the host's own
+    blocks at the same height, and an adopted chain has at least two blocks. -/
+theorem C04_tip_nonzero_invariant (env : Env) (cfg : Cfg) (hinj : Function.Injective env.hash)
+    (ops : List Op) (hw : ∀ o ∈ ops, o.WF) (hnz : ∀ o ∈ ops, TickNonzero o) :
+    TsOk (Ru.run env cfg Node.empty ops).led.blocks ∧
+    ((Ru.run env cfg Node.empty ops).led.blocks ≠ [] → (Ru.run env cfg Node.empty ops).led.lastTs ≠ 0) := by
+  have h : TsOk (Ru.run env cfg Node.empty ops).led.blocks :=
+    ShapeL.tsok_run hinj ops Node.empty ShapeL.tsok_nil hw hnz
+  refine ⟨h, fun hne => ?_⟩
+  have hl := List.getLast?_eq_some_getLast hne
+  rw [ShapeL.lastTs_of_getLast hl]
+  exact ShapeL.tsok_tip h hl
+
+/-- PARTIAL (the excluded case is a clock reading 0): every state reached by a well-formed history whose ticks
+    are aligned and never dated 0 has a shaped chain. -/
 theorem C04_chain_invariant_partial (env : Env) (cfg : Cfg) (hmin : 1 ≤ cfg.minFee)
     (hinj : Function.Injective env.hash) (hI : 0 ≤ cfg.interval)
     (ops : List Op) (hw : ∀ o ∈ ops, o.WF) (ha : Along env cfg (TickAligned cfg) Node.empty ops)
-    (hz : Along env cfg TipNonzero Node.empty ops) :
+    (hnz : ∀ o ∈ ops, TickNonzero o) :
     Shape cfg (Ru.run env cfg Node.empty ops).led.blocks :=
-  ShapeL.shape_run hmin hinj hI ops Node.empty (Reachable.empty env cfg)
-    (fun i a b ha _ => by cases ha) hw ha hz
+  ShapeL.shape_tsok_run hmin hinj hI ops Node.empty (Reachable.empty env cfg)
+    (ShapeL.shape_nil cfg) ShapeL.tsok_nil hw ha hnz
 
 /-- the invariant under the requested name (= `C04_chain_invariant_partial`) -/
 theorem C04_chain_invariant (env : Env) (cfg : Cfg) (hmin : 1 ≤ cfg.minFee)
     (hinj : Function.Injective env.hash) (hI : 0 ≤ cfg.interval)
     (ops : List Op) (hw : ∀ o ∈ ops, o.WF) (ha : Along env cfg (TickAligned cfg) Node.empty ops)
-    (hz : Along env cfg TipNonzero Node.empty ops) :
+    (hnz : ∀ o ∈ ops, TickNonzero o) :
     Shape cfg (Ru.run env cfg Node.empty ops).led.blocks :=
-  C04_chain_invariant_partial env cfg hmin hinj hI ops hw ha hz
+  C04_chain_invariant_partial env cfg hmin hinj hI ops hw ha hnz
 
 /-- non-vacuity: three on-time ticks, a sync round adopting a peer's fourth block, a repeated tick (refused),
-    a skipped tick (refused) and an on-time tick: well-formed, aligned, tips never dated 0; five blocks -/
+    a skipped tick (refused) and an on-time tick: well-formed, aligned, no tick dated 0; five blocks -/
 example : let ops := ops3 ++ [.sync 300 [respAhead] 0, .tick 240 [] "x", .tick 360 [] "y", .tick 300 [] "r4"]
-    (∀ o ∈ ops, o.WF) ∧ Along env cfg (TickAligned cfg) Node.empty ops ∧ Along env cfg TipNonzero Node.empty ops ∧
+    (∀ o ∈ ops, o.WF) ∧ Along env cfg (TickAligned cfg) Node.empty ops ∧ (∀ o ∈ ops, TickNonzero o) ∧
     (Ru.run env cfg Node.empty ops).led.blocks.map (·.ts) = [60, 120, 180, 240, 300] := by
   intro ops
   refine ⟨?_, ?_, ?_, by decide⟩
@@ -55,10 +72,12 @@ example : let ops := ops3 ++ [.sync 300 [respAhead] 0, .tick 240 [] "x", .tick 3
     decide
   · refine ⟨fun h => absurd rfl h, ⟨fun _ => ⟨1, by decide⟩, ⟨fun _ => ⟨1, by decide⟩, ⟨trivial,
       ⟨fun _ => ⟨0, by decide⟩, ⟨fun _ => ⟨2, by decide⟩, ⟨fun _ => ⟨1, by decide⟩, trivial⟩⟩⟩⟩⟩⟩⟩
-  · refine ⟨fun h => absurd rfl h, ⟨fun _ => by decide, ⟨fun _ => by decide, ⟨trivial,
-      ⟨fun _ => by decide, ⟨fun _ => by decide, ⟨fun _ => by decide, trivial⟩⟩⟩⟩⟩⟩⟩
+  · intro o ho
+    simp only [ops, ops3, List.cons_append, List.nil_append, List.mem_cons, List.not_mem_nil, or_false] at ho
+    rcases ho with rfl | rfl | rfl | rfl | rfl | rfl | rfl <;> first | trivial | (show (_ : Int) ≠ 0; decide)
 
-/-- COUNTEREXAMPLE to the full statement, for EVERY environment with an injective hash: a first tick dated 0
+/-- COUNTEREXAMPLE to the full statement (outside honest clocks), for EVERY environment with an injective
+    hash: a first tick dated 0
     leaves a non-empty chain with `lastTs = 0`; the aligned tick at `0 + 2·interval` (a skipped tick, which
     must be refused) is then treated as a genesis tick and appends a block two intervals after the tip. -/
 theorem C04_chain_invariant_counterexample (env : Env) (hinj : Function.Injective env.hash) :
@@ -79,17 +98,38 @@ theorem C04_chain_invariant_counterexample (env : Env) (hinj : Function.Injectiv
   rw [hat, hbt] at this
   exact absurd this (by decide)
 
-/-- OBSERVATION (the excluded case is reachable by adoption, with a first tick dated normally): a neighbour
-    offers a two-block chain whose unverified first block is dated one interval before 0; the verified tip
-    is dated 0 ≤ now and the chain is adopted after a declared fork.  `Validate` then reads `lastTs = 0` as
-    "no block yet": the next aligned tick (ten intervals later — a late tick that must be refused) is
-    accepted as a genesis tick and mints the genesis amount a second time. -/
+/-- REGRESSION (defect found by this proof, repaired by the fix: commit).  Before the repair a neighbour could
+    offer a two-block chain whose unverified first block is dated one interval before 0 and whose verified
+    tip is dated 0 ≤ now; it was adopted after a declared fork, `Validate` then read `lastTs = 0` as "no block
+    yet", accepted a late tick as a genesis tick and minted the genesis amount a second time.  `verifyBlock`
+    now refuses a block dated 0: the offer is rejected, the ledger is left as it was and the late tick is
+    refused. -/
 example :
     let g : Block := ⟨zeroHash, some ["v"], none, -60, [⟨"g0", [], [⟨"v", true, 100⟩], -60⟩]⟩
     let b1 : Block := ⟨env.hash g, none, none, 0, [⟨"g1", [], [⟨"v", false, 0⟩], 0⟩]⟩
+    (Ledger.verify env cfg m1.led m1.led.blocks.dropLast [g, b1] [] 30).toOption = none ∧
+    (Sync.outcomes env cfg m1.led 30 [⟨"p:1", none, some [g, b1]⟩]).map (·.blocks) = [m1.led.blocks] ∧
     (Ru.run env cfg Node.empty [.tick 60 [] "q0", .sync 30 [⟨"p:1", none, some [g, b1]⟩] 0, .tick 600 [] "q1"]
-      ).led.blocks.map (fun b => (b.ts, b.txs.map (·.rewardValue))) = [(-60, [100]), (0, [0]), (600, [100])] := by
+      ).led.blocks.map (fun b => (b.ts, b.txs.map (·.rewardValue))) = [(60, [100])] := by
   decide
+
+/-- the same offer leaves the WHOLE ledger untouched (`outcomes = [host]`) -/
+example :
+    let g : Block := ⟨zeroHash, some ["v"], none, -60, [⟨"g0", [], [⟨"v", true, 100⟩], -60⟩]⟩
+    let b1 : Block := ⟨env.hash g, none, none, 0, [⟨"g1", [], [⟨"v", false, 0⟩], 0⟩]⟩
+    Sync.outcomes env cfg m1.led 30 [⟨"p:1", none, some [g, b1]⟩] = [m1.led] := by
+  intro g b1
+  apply C13_no_candidate_unchanged
+  intro r hr
+  simp only [List.mem_singleton] at hr
+  subst hr
+  constructor <;> intro nb h <;> simp only [Option.some.injEq] at h
+  · cases h
+  subst h
+  have hv : (Ledger.verify env cfg m1.led m1.led.blocks.dropLast [g, b1] [] 30).toOption = none := by decide
+  cases hx : Ledger.verify env cfg m1.led m1.led.blocks.dropLast [g, b1] [] 30 with
+  | error e => exact ⟨e, rfl⟩
+  | ok v => rw [hx] at hv; cases hv
 
 /-- All candidate chains: whatever the neighbours answer, every candidate of a sync round run by a node
     with a shaped chain is shaped (blocks that are not re-verified are, by injectivity of the hash, the
@@ -110,7 +150,7 @@ example : Reachable env cfg n3 ∧ (∀ r ∈ [respAhead], r.target ≠ "host") 
   ⟨⟨ops3, by simp [ops3, Op.WF], rfl⟩, by decide, by decide⟩
 
 /-- Every block `verify` accepts as NEW (it has a predecessor and its hash differs from the host block it is
-    compared with, or there is none) is dated at or before `now`, exactly one interval after its
+    compared with, or there is none) is dated at or before `now` and not at 0, exactly one interval after its
     predecessor, carries exactly one reward transaction, and its ordinary transactions are dated between
     the two blocks. -/
 theorem C04_adopted_not_future (env : Env) (cfg : Cfg) (host : Ledger) (lastHost nb oldHost : List Block)
@@ -118,12 +158,12 @@ theorem C04_adopted_not_future (env : Env) (cfg : Cfg) (host : Ledger) (lastHost
     (j : Nat) (b p : Block) (hb : nb[j]? = some b)
     (hp : (if j = 0 then oldHost.getLast? else nb[j - 1]?) = some p)
     (hnew : ∀ x, lastHost[j]? = some x → env.hash b ≠ env.hash x) :
-    b.ts ≤ now ∧ BlockStep cfg p b := by
+    b.ts ≤ now ∧ b.ts ≠ 0 ∧ BlockStep cfg p b := by
   have hf := ShapeL.loopFacts_get nb _ 0 (ShapeL.verify_facts h) j b hb
-  rcases hf.2 p hp with ⟨x, hx, he⟩ | ⟨h1, h2⟩
+  rcases hf.2 p hp with ⟨x, hx, he⟩ | ⟨h1, h2, h3⟩
   · rw [Nat.zero_add] at hx
     exact absurd he (hnew x hx)
-  · exact ⟨h2, h1⟩
+  · exact ⟨h2, h3, h1⟩
 
 example : (Ledger.verify env cfg n3.led n3.led.blocks.getLast?.toList (n4.led.blocks.drop 2)
     n3.led.blocks.dropLast 300).toOption = some (n4.led.blocks.drop 2) ∧
